@@ -70,6 +70,49 @@ func mergesString(f *excelize.File, sheet string) string {
 	return strings.Join(ms, ";")
 }
 
+// shiftMerges applies the shift rule of the property to a sorted "x1,y1,x2,y2;..." list
+func shiftMerges(ms string, o sop) string {
+	if ms == "" {
+		return ""
+	}
+	var out []string
+	for _, m := range strings.Split(ms, ";") {
+		var r [4]int
+		fmt.Sscanf(m, "%d,%d,%d,%d", &r[0], &r[1], &r[2], &r[3])
+		lo, hi := 1, 3 // rows
+		num := o.Row
+		if o.K == "IC" || o.K == "RC" {
+			lo, hi, num = 0, 2, o.Col
+		}
+		switch o.K {
+		case "IR", "IC":
+			n := int(o.I)
+			if num <= r[lo] {
+				r[lo] += n
+				r[hi] += n
+			} else if num <= r[hi] {
+				r[hi] += n
+			}
+		case "RR", "RC":
+			if r[lo] == num && r[hi] == num {
+				continue
+			}
+			if num < r[lo] {
+				r[lo]--
+				r[hi]--
+			} else if num <= r[hi] {
+				r[hi]--
+			}
+			if r[0] == r[2] && r[1] == r[3] {
+				continue // a single cell is no merged range
+			}
+		}
+		out = append(out, fmt.Sprintf("%d,%d,%d,%d", r[0], r[1], r[2], r[3]))
+	}
+	sort.Strings(out)
+	return strings.Join(out, ";")
+}
+
 // formula text is rewritten by structural edits (C07): only its presence is compared in C06
 var formulaTextRe = regexp.MustCompile(`^(\d+:x[0-9a-f]*):x[0-9a-f]*:(-?\d+)$`)
 
@@ -136,10 +179,33 @@ func (c *Ctx) checkHistC06x(h hist, cases *[]mcase) {
 	modelOK := true
 	nEdits := 0
 	for i, o := range h.Ops {
+		if o.K == "M" {
+			// merges were generated for the static history and may overlap ranges that edits have moved; overlapping
+			// ranges are joined lazily (see the known finding under C01-C04), which is not this property's subject:
+			// such a merge becomes a plain write.  Disjoint ranges stay disjoint under edits (C06_merges_stay_disjoint).
+			nr := [4]int{o.Col, o.Row, o.Col2, o.Row2}
+			mcs, _ := f.GetMergeCells(h.Sheet)
+			for _, m := range mcs {
+				c1, r1, _ := excelize.CellNameToCoordinates(m.GetStartAxis())
+				c2, r2, _ := excelize.CellNameToCoordinates(m.GetEndAxis())
+				if rectsOverlap(nr, [4]int{c1, r1, c2, r2}) {
+					o = sop{K: "S", PK: "int", I: 7, Col: o.Col, Row: o.Row}
+					break
+				}
+			}
+		}
 		if isEdit(o.K) {
 			nEdits++
 			before := c06Observation(f, h.W+3, h.H+3)
+			mergesBefore := mergesString(f, h.Sheet)
 			_, err := o.eapply(f, h.Sheet, styles)
+			if err == nil && o.K != "DR" {
+				// the shift rule for merged ranges (C06_merge_rule_insert_rows / C06_merge_rule_remove_row, columns alike)
+				if want, got := shiftMerges(mergesBefore, o), mergesString(f, h.Sheet); want != got {
+					c.Fail("oracle", "C06_ranges", h, fmt.Sprintf("op %d (%s at %d/%d, n=%d): merged ranges [%s] became [%s]; the shift rule gives [%s]", i, o.K, o.Row, o.Col, o.I, mergesBefore, got, want), "")
+					return
+				}
+			}
 			if err != nil {
 				if after := c06Observation(f, h.W+3, h.H+3); after != before {
 					c.Fail("oracle", "C06_reject_atomic", h, fmt.Sprintf("op %d (%s) was rejected (%v) but changed the workbook: %s", i, o.K, err, firstDiff(before, after)), "")
@@ -232,17 +298,6 @@ func (c *Ctx) genC06(n int, attrs bool) hist {
 		}
 		if h.Ops[i].K != "DR" {
 			h.Ops[i].Col2, h.Ops[i].Row2 = 0, 0
-		}
-	}
-	// merges generated for the static history may overlap once edits moved them (overlap normalisation is not
-	// modelled): keep at most one merged range per history
-	seenM := false
-	for i := range h.Ops {
-		if h.Ops[i].K == "M" {
-			if seenM {
-				h.Ops[i] = sop{K: "S", PK: "int", I: 7, Col: h.Ops[i].Col, Row: h.Ops[i].Row}
-			}
-			seenM = true
 		}
 	}
 	return h
@@ -398,7 +453,7 @@ func (c *Ctx) c06Objects() {
 }
 
 func runC06(c *Ctx) {
-	c.R.Rule = "histories mixing cell writes, formulas, styles, merges, row/column attributes, hyperlinks, defined names with InsertRows/RemoveRow/InsertCols/RemoveCol/DuplicateRow/DuplicateRowTo (positions before/inside/after the data, counts 1..3, lower-case column names) on a workbook whose other sheet refers to the edited one; window + merged ranges vs the extracted model (erun); rejected edits change nothing on any sheet; insert n then remove n restores the whole observation; limit cases (XFD / row 1048576 occupied); DuplicateRowTo for every source/target pair over rows that each carry their own data validation, conditional format, merged range and height (the copy gets the source row's, the rest shifts, writes still land in their rows, removing the copy restores the sheet; targets beyond the row limit are rejected). non-trivial = at least one structural edit and one other op"
+	c.R.Rule = "histories mixing cell writes, formulas, styles, merges, row/column attributes, hyperlinks, defined names with InsertRows/RemoveRow/InsertCols/RemoveCol/DuplicateRow/DuplicateRowTo (positions before/inside/after the data, counts 1..3, lower-case column names) on a workbook whose other sheet refers to the edited one; window + merged ranges vs the extracted model (erun); rejected edits change nothing on any sheet; insert n then remove n restores the whole observation; limit cases (XFD / row 1048576 occupied); data validations, conditional formats, tables and the auto filter on five range shapes under every edit at positions 1..7 against the shift rule; DuplicateRowTo for every source/target pair over rows that each carry their own data validation, conditional format, merged range and height (the copy gets the source row's, the rest shifts, writes still land in their rows, removing the copy restores the sheet; targets beyond the row limit are rejected). non-trivial = at least one structural edit and one other op"
 	var cases []mcase
 	n := 1200
 	if c.Thorough() {
@@ -413,6 +468,7 @@ func runC06(c *Ctx) {
 	}
 	c.compareBatch(cases)
 	c.c06Objects()
+	c.c06RangeObjects()
 	c.c06Duplicates()
 	c.c06Limits()
 }
